@@ -913,7 +913,13 @@ func (p *Printer) cmdSubst(cs *CmdSubst) {
 			// the result again gives the same.
 			p.wantNewline = true
 		}
+		hdocs := len(p.pendingHdocs)
 		p.nestedStmts(cs.Stmts, cs.Last, cs.Right)
+		if len(p.pendingHdocs) > hdocs {
+			// A here-document of the command substitution must be
+			// written before it closes, also in single-line mode.
+			p.mustNewline = true
+		}
 		p.closingParen(cs.Stmts, cs.Last, cs.Left, cs.Right)
 	}
 }
